@@ -19,7 +19,7 @@ static void c01_addsub_check(Ctx& ctx, const Args& a)
   int op = (int)a[0]; bool sub = op & 1;
   i128 s = sub ? (i128)a[1] - a[2] : (i128)a[1] + a[2];
   c01_classify(ctx, s); ctx.cls(g_sigs[kAddSubOps[op]].name);
-  ctx.expect(m_finite128(s) ? "raw " + i128s(s) : "NaN (exact result " + i128s(s) + " outside [lowest,max])");
+  if (ctx.verbose()) ctx.expect(m_finite128(s) ? "raw " + i128s(s) : "NaN (exact result " + i128s(s) + " outside [lowest,max])");
   for (size_t ci = 0; ci < ctx.cuts.size(); ++ci) {
     int64_t r; if (!ctx.call(ci, kAddSubOps[op], a[1], a[2], r)) continue;
     if (!ok_exact_or_nan(s, r)) ctx.fail(ci, strf("%s(%" PRId64 ", %" PRId64 ") = %" PRId64 ", exact result %s -> expected %s", g_sigs[kAddSubOps[op]].name, a[1], a[2], r, i128s(s).c_str(), m_finite128(s) ? "that value" : "NaN"));
@@ -78,7 +78,7 @@ static void c01_shape_check(Ctx& ctx, const Args& a)
   ctx.cls(g_sigs[kShapeEntry[sh]].name);
   if (e.k == MV::NAN_ || (isbool && e.v == 1)) { ctx.cls("overflow"); ctx.nontriv(); }
   else if (!isbool && iabs128(e.v) >= (i128)MAXF - 131072) { ctx.cls("near-limit"); ctx.nontriv(); }
-  ctx.expect(e.k == MV::NAN_ ? std::string("NaN") : "value " + i128s(e.v));
+  if (ctx.verbose()) ctx.expect(e.k == MV::NAN_ ? std::string("NaN") : "value " + i128s(e.v));
   for (size_t ci = 0; ci < ctx.cuts.size(); ++ci) {
     int64_t r; if (!ctx.call(ci, kShapeEntry[sh], a[1], a[2], a[3], r)) continue;
     bool ok = e.k == MV::NAN_ ? m_isnan(r) : r == (int64_t)e.v;
